@@ -87,6 +87,10 @@ func TestVerif_C09(t *testing.T) {
 				pre = mocrelay.MachineReadablePrefixDuplicate
 			}
 			tag := "rejected"
+			if (x>>24)%4 == 0 {
+				// reasons are free text: several bytes per character
+				tag = []string{"受け付けません", "отклонено", "refusé à l’entrée", "💥"}[(x>>28)%4]
+			}
 			if acc {
 				tag = "fine"
 				if (x>>16)%3 == 0 {
@@ -157,6 +161,9 @@ func TestVerif_C09(t *testing.T) {
 		cl := newMClient(ctx, h)
 		defer func() { cl.s.Stop(); <-cl.rdDone }()
 		subs := []string{"x", "y"}
+		if r.IntN(4) == 0 {
+			subs = []string{"x", ""} // the empty string is a subscription id like any other
+		}
 		nreq := 1 + r.IntN(8)
 		sentEv := map[string]int{}
 		sentCnt := map[string]int{}
